@@ -50,6 +50,9 @@ var multi = []string{
 	"T | join kind=inner (U | where x > 1) on $left.a == $right.b, c; ; ;",
 	"T | summarize n = count(), countif(a > 1) by k, j = b % 2 | top 3 by n desc | as R | render barchart with (title='a;b', k=v)",
 	";;T;;",
+	"// caf\u00e9 \u2013 na\u00efve\n; T | extend a + 1, b * 2 | summarize count(), max(a) by k",
+	"let s = '\u00e9\u00e9\u00e9'; T | extend a+1 | project `a+1`",
+	"T | where s == '\u65e5\u672c'; U | extend x - 1; V | summarize sum(y) by z",
 	"T|where a=~b;U|where a!~b;let x=a<=b",
 	"let a = 1;\nlet b = a + 1;\n\nT\n| where x == b\n| extend y = x[1], z = f(x, -1)[2]\n;\nlet c = 3",
 }
